@@ -88,9 +88,9 @@ func (vm *Vm) EXTEND_REVERSED(items py.Tuple) {
 // Adds a traceback to the exc passed in for the current vm state
 func (vm *Vm) AddTraceback(exc *py.ExceptionInfo) {
 	exc.Traceback = &py.Traceback{
-		Next:   exc.Traceback,
-		Frame:  vm.frame,
-		Lasti:  vm.frame.Lasti,
+		Next:  exc.Traceback,
+		Frame: vm.frame,
+		Lasti: vm.frame.Lasti,
 		// Lasti already points past the instruction being executed
 		Lineno: vm.frame.Code.Addr2Line(vm.frame.Lasti - 1),
 	}
